@@ -422,6 +422,31 @@ def handleInput (cfg : Cfg) (s : St) : Input → StepResult
     | r => r
   | .attach => .next { s with conn := true } true []
 
+/-! ### the outgoing PDU queue (`send_pdu`, session.rs:373)
+
+`send_pdu` is `self.pdu_out_tx.try_send(pdu)`: `pdu_out` is a bounded queue whose other end the
+application drains (it writes the PDUs to the socket).  A PDU that finds the queue full is dropped
+with a `warn!`; the arm goes on (timers stopped, connection released, state changed).  `step`,
+`handleInput` and `tickStep` list what the arms *send*; `accepted room` is what of it reaches the
+queue when `room` slots are free at the start of the step. -/
+
+def Out.isPdu : Out → Bool
+  | .pduOpen _ | .pduKeepalive | .pduNotification _ _ => true
+  | _ => false
+
+/-- `try_send` in order: the first `room` PDUs are queued, later ones are dropped; what goes to the
+application channel (`send().await`) is not affected. -/
+def accepted : Nat → List Out → List Out
+  | _, [] => []
+  | room, o :: rest =>
+    if o.isPdu then
+      match room with
+      | 0 => accepted 0 rest
+      | r + 1 => o :: accepted r rest
+    else o :: accepted room rest
+
+def pduCount (outs : List Out) : Nat := (outs.filter Out.isPdu).length
+
 /-- A history: results of the inputs in order; it ends at the first `todo`/`panic`
 (the session task is gone). -/
 def runHist (cfg : Cfg) : St → List Input → List StepResult
@@ -440,6 +465,8 @@ the command channel and the timers is not modelled. -/
 inductive TickInput where
   | frame (m : Input)   -- a PDU has arrived; `tick()` reads and handles it
   | closed              -- the peer closed the connection; `tick()` sees end of stream
+  | readErr             -- `read_frame` fails: a malformed frame (`parse_frame` Err), or the peer closes in the
+                        -- middle of a frame ("connection reset by peer")
   | cmdDisconnect       -- Command::Disconnect(DisconnectReason::Shutdown)
   | cmdKeepalive        -- Command::ForcedKeepalive
   | direct (i : Input)  -- not through `tick`
@@ -466,6 +493,11 @@ def tickStep (cfg : Cfg) (s : St) : TickInput → TickResult
     if !s.conn then .noConn else
     -- `Ok(None)`: Message::ConnectionLost, `self.connection = None`, `set_state(State::Connect)`
     .res (.next { s with conn := false, state := .connect } true [.appConnectionLost])
+  | .readErr =>
+    if !s.conn then .noConn else
+    -- `Err(e)`: `self.connection = None; self.set_state(State::Connect); return Err(..)` - no event is raised,
+    -- no NOTIFICATION is sent, the application is not told (session.rs:317-322)
+    .res (.next { s with conn := false, state := .connect } false [])
   | .cmdDisconnect =>
     let r := exec cfg defaultOpen s cmdDisconnectActs
     .res (.next r.1 true r.2)
@@ -477,5 +509,105 @@ def runTick (cfg : Cfg) : St → List TickInput → List TickResult
     match tickStep cfg s i with
     | .res (.next s' ok outs) => .res (.next s' ok outs) :: runTick cfg s' rest
     | r => [r]
+
+/-! ### the timer branches of `Session::tick` (session.rs:326-334)
+
+`tick` polls three of the four timers: `keepalive_timer.tick()` raises KeepaliveTimerExpires,
+`hold_timer.tick()` HoldTimerExpires, `delay_open_timer.tick()` DelayOpenTimerExpires (the
+ConnectRetryTimer is polled by nothing).  A `Timer` (timers.rs) started at time `t` with interval
+`i` ticks at `t + i, t + 2i, ..`; `reset()` moves the next tick to `now + i`; an interval of 0
+panics inside the spawned timer task (`tokio::time::interval(0)`), which tokio swallows: such a
+timer "runs" but never ticks.  Intervals are fixed in `Session::new`: hold = the LOCAL hold time
+(not the negotiated one), keepalive = hold / 3, delay-open = 10 s.
+
+`Clock` is kept next to `St` (not inside: the transition theorems do not depend on time).  It is
+exact when time passes only inside `tick()` – the harness runs these lines on a paused tokio clock,
+which advances exactly to the next timer when `tick()` has nothing else to do. -/
+
+structure Clock where
+  now : Nat
+  ka : Option Nat     -- instant of the keepalive timer's next tick (none: stopped, or interval 0)
+  hold : Option Nat
+  dop : Option Nat
+  deriving DecidableEq, Repr
+
+def kaInterval (cfg : Cfg) : Nat := cfg.localHold / 3
+def holdInterval (cfg : Cfg) : Nat := cfg.localHold
+def dopInterval : Nat := 10
+
+/-- next tick of a timer (re)started or reset at `now` -/
+def dueAt (now interval : Nat) : Option Nat := if interval = 0 then none else some (now + interval)
+
+/-- the clock of a session whose timers were (force-)started at time 0 -/
+def Clock.ofSt (cfg : Cfg) (s : St) : Clock :=
+  { now := 0,
+    ka := if s.ka then dueAt 0 (kaInterval cfg) else none,
+    hold := if s.hold then dueAt 0 (holdInterval cfg) else none,
+    dop := if s.dop then dueAt 0 dopInterval else none }
+
+/-- what one statement of an arm does to the timers' next ticks; `s` is the session state before it -/
+def clockAct (cfg : Cfg) (s : St) (c : Clock) : Act → Clock
+  | .startKa => { c with ka := dueAt c.now (kaInterval cfg) }
+  | .startHold => { c with hold := dueAt c.now (holdInterval cfg) }
+  | .resetHold => if s.hold then { c with hold := dueAt c.now (holdInterval cfg) } else c   -- reset() of a stopped timer only warns
+  | .startDop => { c with dop := dueAt c.now dopInterval }
+  | .stopDop => { c with dop := none }
+  | .disconnect _ => { c with ka := none, hold := none }
+  | _ => c
+
+def clockExec (cfg : Cfg) (o : OpenInfo) : St → Clock → List Act → Clock
+  | _, c, [] => c
+  | s, c, a :: rest => clockExec cfg o (execAct cfg o s a).1 (clockAct cfg s c a) rest
+
+/-- the event an input feeds to `handle_event` (none: ROUTE-REFRESH, attach) -/
+def inputEvent (cfg : Cfg) (s : St) : Input → Option Event
+  | .ev e => some e
+  | .msgOpen o => some (openEvent s o)
+  | .msgKeepalive => some .keepaliveMsg
+  | .msgUpdate _ => some .updateMsg
+  | .msgNotification code sub => some (notifEvent code sub)
+  | .msgRouteRefresh => none
+  | .apiStart => some (startEvent cfg)
+  | .apiConn => some .tcpConnectionConfirmed
+  | .attach => none
+
+/-- the statements `handle_event` runs for an event (none for `todo!()` / panic arms) -/
+def actsOfEvent (cfg : Cfg) (s : St) (e : Event) : List Act :=
+  match arm (ctxOf cfg s) s.state (kindOf cfg e) with
+  | .run acts _ => acts
+  | _ => []
+
+/-- the clock after an input was handled in state `s` -/
+def clockInput (cfg : Cfg) (s : St) (c : Clock) (i : Input) : Clock :=
+  match inputEvent cfg s i with
+  | some e => clockExec cfg (openOf e) s c (actsOfEvent cfg s e)
+  | none => c
+
+inductive TimerTick where
+  | idle                                   -- none of the three timers will ever tick: `tick()` does not return
+  | tie                                    -- two timers are due at the same instant: `select!` picks at random
+  | fired (e : Event) (r : StepResult) (c : Clock)
+  deriving DecidableEq, Repr
+
+/-- mirrors the three timer branches of `Session::tick` when nothing else is pending: the timer
+whose tick comes first fires, `tick` raises ITS event (`self.handle_event(..).await?`). -/
+def tickTimer (cfg : Cfg) (s : St) (c : Clock) : TimerTick :=
+  let cands : List (Nat × Event) :=
+    (match c.ka with | some t => [(t, Event.keepaliveTimerExpires)] | none => []) ++
+    (match c.hold with | some t => [(t, Event.holdTimerExpires)] | none => []) ++
+    (match c.dop with | some t => [(t, Event.delayOpenTimerExpires)] | none => [])
+  match cands with
+  | [] => .idle
+  | (t0, e0) :: rest =>
+    let best := rest.foldl (fun (b : Nat × Event) x => if x.1 < b.1 then x else b) (t0, e0)
+    if (cands.filter fun x => x.1 == best.1).length > 1 then .tie
+    else
+      let m := best.1
+      -- the interval goes on ticking
+      let c1 : Clock := match best.2 with
+        | .keepaliveTimerExpires => { c with now := m, ka := dueAt m (kaInterval cfg) }
+        | .holdTimerExpires => { c with now := m, hold := dueAt m (holdInterval cfg) }
+        | _ => { c with now := m, dop := dueAt m dopInterval }
+      .fired best.2 (step cfg s best.2) (clockExec cfg defaultOpen s c1 (actsOfEvent cfg s best.2))
 
 end Rc.Fsm
